@@ -206,6 +206,120 @@ def tetraCumDOS (Ec Emin Emax : Nat → Rat) (th : Rat) (n : Nat) (kr : Bool) (e
   let inr := inRange Ec Emin Emax th n kr ef0 efN
   tetraResult inr (seaGroup Emax n inr ef0 none) w identTrace
 
+/-! ### band selection inside `weights_all_band_groups` -/
+
+/-- `set(range(ib1, ib2)).intersection(set(select_bands)) != set()` (no selection = keep) -/
+def selHits (sel : Option (List Nat)) (ab : Nat × Nat) : Bool :=
+  match sel with
+  | none => true
+  | some l => l.any (fun i => decide (ab.1 ≤ i) && decide (i < ab.2))
+
+/-- `weight_select_bands(ib1, ib2, select_bands)` -/
+def wsel (sel : Option (List Nat)) (ab : Nat × Nat) : Rat :=
+  match sel with
+  | none => 1
+  | some l => ((l.filter (fun i => decide (ab.1 ≤ i) && decide (i < ab.2))).length : Rat) / ((ab.2 - ab.1 : Nat) : Rat)
+
+/-- window groups with a band selection (groups without a selected band are skipped) -/
+def inRangeSel (Ec Emin Emax : Nat → Rat) (th : Rat) (n : Nat) (kr : Bool) (emin emax : Rat)
+    (sel : Option (List Nat)) : List (Nat × Nat) :=
+  (inRange Ec Emin Emax th n kr emin emax).filter (selHits sel)
+
+/-- weight of a window group: mean of the band weights times `weight_select_bands` -/
+def groupWeightSel (w : Nat → Rat) (sel : Option (List Nat)) (ab : Nat × Nat) : Rat := groupWeight w ab * wsel sel ab
+
+/-- tetrahedron-method result of a Fermi-surface calculator (`der ≥ 1`) with a band selection -/
+def tetraResultSel (inr : List (Nat × Nat)) (sel : Option (List Nat)) (w : Nat → Rat) (v : Nat × Nat → Rat) : Rat :=
+  (inr.map (fun ab => groupWeightSel w sel ab * v ab)).foldl (· + ·) 0
+
+/-! ### the lazy weight cache of `TetraWeights` (hidden state)
+
+  `TetraWeights` keeps `self.eFermis` (the Fermi arrays seen so far, compared BY IDENTITY, `eF is eFermi`) and
+  `self.weights[ief][der][ik][ib]`.  A Fermi array is an object: an identity (`Nat`) whose contents live in a heap and
+  can be changed in place.  `kern contents der ik ib` is the pure computation `weight_1k1b` (for `der = -1`:
+  `1 - weight(der=0)`), evaluated on the contents the registered object has AT THE TIME of the first query. -/
+
+structure TW where
+  eFermis : List Nat
+  cache : List ((Nat × Int × Nat × Nat) × List Rat)
+
+def TW.empty : TW := ⟨[], []⟩
+
+/-- `index_eFermi` + registration of an unseen array (appended, index = previous length) -/
+def TW.register (s : TW) (id : Nat) : Nat × TW :=
+  match s.eFermis.findIdx? (· == id) with
+  | some i => (i, s)
+  | none => (s.eFermis.length, { s with eFermis := s.eFermis ++ [id] })
+
+abbrev Heap := List (Nat × List Rat)
+def heapGet (h : Heap) (id : Nat) : List Rat := (h.lookup id).getD []
+
+/-- `__weight_1b`: cached value, or compute from the CURRENT contents of the registered object and store -/
+def TW.weight1b (kern : List Rat → Int → Nat → Nat → List Rat) (h : Heap) (s : TW) (ief : Nat) (der : Int)
+    (ik ib : Nat) : List Rat × TW :=
+  match s.cache.lookup (ief, der, ik, ib) with
+  | some w => (w, s)
+  | none =>
+    let w := kern (heapGet h (s.eFermis.getD ief 0)) der ik ib
+    (w, { s with cache := ((ief, der, ik, ib), w) :: s.cache })
+
+inductive Op where
+  | query (id : Nat) (der : Int) (ik ib : Nat)
+  | mutate (id : Nat) (vals : List Rat)
+
+structure Sys where
+  heap : Heap
+  tw : TW
+
+def step (kern : List Rat → Int → Nat → Nat → List Rat) (σ : Sys) : Op → Sys × Option (List Rat)
+  | .query id der ik ib =>
+    let r := σ.tw.register id
+    let q := r.2.weight1b kern σ.heap r.1 der ik ib
+    ({ σ with tw := q.2 }, some q.1)
+  | .mutate id vals => ({ σ with heap := (id, vals) :: σ.heap }, none)
+
+def run (kern : List Rat → Int → Nat → Nat → List Rat) : Sys → List Op → List (Option (List Rat))
+  | _, [] => []
+  | σ, op :: rest => (step kern σ op).2 :: run kern (step kern σ op).1 rest
+
+/-- the same history without any cache: every query computes from the contents at the time of the query -/
+def pureRun (kern : List Rat → Int → Nat → Nat → List Rat) : Heap → List Op → List (Option (List Rat))
+  | _, [] => []
+  | h, .query id der ik ib :: rest => some (kern (heapGet h id) der ik ib) :: pureRun kern h rest
+  | h, .mutate id vals :: rest => none :: pureRun kern ((id, vals) :: h) rest
+
+/-- the kernel of `TetraWeights` (tetrahedron K-points): `corner ik ib` = the four corner energies of the band -/
+def tetraKern (dmin : Rat) (corner : Nat → Nat → List Rat) (ef : List Rat) (der : Int) (ik ib : Nat) : List Rat :=
+  match corner ik ib with
+  | [c0, c1, c2, c3] =>
+    if der = -1 then ef.map (fun x => 1 - weightsTetra dmin 0 true c0 c1 c2 c3 x)
+    else ef.map (weightsTetra dmin der.toNat true c0 c1 c2 c3)
+  | _ => []
+
+/-! ### `Data_K.tetraWeights`: the weight object of a K-point is fed with the centre and corner energies -/
+
+/-- parallelepiped K-point: `TetraWeightsParal(eCenter=E_K, eCorners=E_K_corners_parallel())`, weight of band `ib` at
+    FFT point `ik`;  `Ecorn ik (ix,iy,iz) ib = E_K_corners_parallel()[ik, ix, iy, iz, ib]` -/
+def dataKWeightParal {K : Type} [Add K] [Sub K] [Mul K] [Div K] [Neg K] [OfNat K 0] [OfNat K 1] [NatCast K]
+    [LE K] [LT K] [DecidableLE K] [DecidableLT K]
+    (dmin : K) (der : Nat) (EK : Nat → Nat → K) (Ecorn : Nat → Nat × Nat × Nat → Nat → K) (ik ib : Nat) (ef : K) : K :=
+  paralWeight dmin der true (EK ik ib) (fun v => Ecorn ik v ib) ef
+
+/-- tetrahedron K-point: `TetraWeights(eCenter=E_K, eCorners=E_K_corners_tetra())`; the centre energy is not used by
+    the weight; `Ecorn ik iv ib = E_K_corners_tetra()[ik, iv, ib]` -/
+def dataKWeightTetra {K : Type} [Add K] [Sub K] [Mul K] [Div K] [Neg K] [OfNat K 0] [OfNat K 1] [NatCast K]
+    [LE K] [LT K] [DecidableLE K] [DecidableLT K]
+    (dmin : K) (der : Nat) (Ecorn : Nat → Nat → Nat → K) (ik ib : Nat) (ef : K) : K :=
+  weightsTetra dmin der true (Ecorn ik 0 ib) (Ecorn ik 1 ib) (Ecorn ik 2 ib) (Ecorn ik 3 ib) ef
+
+/-! ### `run()` level: the reported tetrahedron result is `Σ_K factor_K · (k-average inside K)` -/
+
+def listSum (l : List Rat) : Rat := l.foldl (· + ·) 0
+
+/-- `Ks` = the K-points of the run: (factor, values of the `nk` FFT points of that K-point) -/
+def runTotal (Ks : List (Rat × List Rat)) : Rat :=
+  listSum (Ks.map (fun K => K.1 * (listSum K.2 / (K.2.length : Rat))))
+
 /-! ### driver -/
 open WB.IO
 
@@ -220,6 +334,9 @@ def showOptPair : Option (Nat × Nat) → String
 
 def parseOptRat? (s : String) : Option (Option Rat) :=
   if s = "inf" || s = "-inf" then some none else (parseRat? s).map some
+
+def parseSel? (s : String) : Option (Option (List Nat)) :=
+  if s = "none" then some none else (parseNats? s).map some
 
 def cornerOf (l : List Rat) (v : Nat × Nat × Nat) : Rat := l.getD (4 * v.1 + 2 * v.2.1 + v.2.2) 0
 
@@ -236,18 +353,52 @@ def handle : List String → String
     | some dm, some d, some a, some c, some l, some fs =>
       if l.length ≠ 8 then "bad-op" else showRats (fs.map (paralWeight dm d a c (cornerOf l)))
     | _, _, _, _, _, _ => "bad-op"
-  -- groups Ec Emin Emax th kr ef0 efN der EminP EmaxP   ->  inrange-groups | lumped
-  | ["groups", ec, emn, emx, th, kr, ef0, efN, der, eminP, emaxP] =>
+  -- groups Ec Emin Emax th kr ef0 efN der EminP EmaxP sel  ->  inrange-groups | lumped | select weights
+  | ["groups", ec, emn, emx, th, kr, ef0, efN, der, eminP, emaxP, sel] =>
     match parseRats? ec, parseRats? emn, parseRats? emx, parseRat? th, parseBool? kr, parseRat? ef0, parseRat? efN,
-          parseInt? der, parseOptRat? eminP, parseOptRat? emaxP with
-    | some c, some mn, some mx, some t, some k, some f0, some fN, some d, some eP, some xP =>
+          parseInt? der, parseOptRat? eminP, parseOptRat? emaxP, parseSel? sel with
+    | some c, some mn, some mx, some t, some k, some f0, some fN, some d, some eP, some xP, some sl =>
       if c.isEmpty || mn.length ≠ c.length || mx.length ≠ c.length then "bad-op" else
       let n := c.length
-      let inr := inRange (ofList c) (ofList mn) (ofList mx) t n k f0 fN
+      let inr := inRangeSel (ofList c) (ofList mn) (ofList mx) t n k f0 fN sl
       let lum := if d = 0 then seaGroup (ofList mx) n inr f0 eP
                  else if d = -1 then antiSeaGroup (ofList mn) n inr fN xP else none
-      showPairs inr ++ " | " ++ showOptPair lum
-    | _, _, _, _, _, _, _, _, _, _ => "bad-op"
+      showPairs inr ++ " | " ++ showOptPair lum ++ " | " ++ showRats (inr.map (wsel sl))
+    | _, _, _, _, _, _, _, _, _, _, _ => "bad-op"
+  -- twseq dmin corners(ik-major: c,c,c,c;c,c,c,c  bands of all k, nb bands per k) nb ops
+  --   ops separated by `|`:  q:id:der:ik:ib   or   m:id:v,v,v     ->  answers of the queries separated by `;`
+  | ["twseq", dmin, cs, nb, ops] =>
+    match parseRat? dmin, parseRatss? cs, parseNat? nb with
+    | some dm, some cl, some nbn =>
+      let corner : Nat → Nat → List Rat := fun ik ib => cl.getD (ik * nbn + ib) []
+      let parseOp (t : String) : Option Op :=
+        match t.splitOn ":" with
+        | ["q", id, d, ik, ib] =>
+          match parseNat? id, parseInt? d, parseNat? ik, parseNat? ib with
+          | some a, some b, some c, some e => some (Op.query a b c e)
+          | _, _, _, _ => none
+        | ["m", id, vs] =>
+          match parseNat? id, parseRats? vs with
+          | some a, some v => some (Op.mutate a v)
+          | _, _ => none
+        | _ => none
+      match (ops.splitOn "|").mapM parseOp with
+      | some ol =>
+        let out := run (tetraKern dm corner) ⟨[], TW.empty⟩ ol
+        showListWith (fun o => match o with | some w => showRats w | none => "-") ";" out
+      | none => "bad-op"
+    | _, _, _ => "bad-op"
+  -- runtotal  f:v,v,v;f:v,v
+  | ["runtotal", ks] =>
+    let parseK (t : String) : Option (Rat × List Rat) :=
+      match t.splitOn ":" with
+      | [f, vs] => match parseRat? f, parseRats? vs with
+        | some a, some v => some (a, v)
+        | _, _ => none
+      | _ => none
+    match parseListWith parseK ";" ks with
+    | some l => showRat (runTotal l)
+    | none => "bad-op"
   -- tetcumdos Ec Emin Emax th kr ef0 efN w
   | ["tetcumdos", ec, emn, emx, th, kr, ef0, efN, ws] =>
     match parseRats? ec, parseRats? emn, parseRats? emx, parseRat? th, parseBool? kr, parseRat? ef0, parseRat? efN,
